@@ -80,7 +80,7 @@ fn exec(case: &StreamCase, stream: &[u8], cuts: &[usize]) -> (StreamRun, Vec<u8>
     (run, dump)
 }
 
-fn framer_check(stream: &[u8], run: &StreamRun) -> Option<(String, String)> {
+pub fn framer_check(stream: &[u8], run: &StreamRun) -> Option<(String, String)> {
     for rec in &run.executed {
         let h = wire::req_header(&stream[rec.offset.min(stream.len())..])?;
         let expect = 24 + h.body_len as usize;
@@ -100,15 +100,18 @@ fn framer_check(stream: &[u8], run: &StreamRun) -> Option<(String, String)> {
             ));
         }
     }
-    if run.closed.is_none() && run.quit_at.is_none() && run.panic.is_none() && run.leftover >= 24 {
-        if let Some(h) = wire::req_header(&stream[run.leftover_offset.min(stream.len())..]) {
-            if run.leftover >= 24 + h.body_len as usize {
+    if run.closed.is_none() && run.quit_at.is_none() && run.panic.is_none() && run.fed == stream.len() {
+        // the first frame the decoder has not completed starts where the last completed request ended
+        // (the decoder may already have consumed that frame's header)
+        let off = run.next_frame_offset.min(stream.len());
+        if let Some(h) = wire::req_header(&stream[off..]) {
+            if stream.len() - off >= 24 + h.body_len as usize {
                 return Some((
                     "undecoded_frame".into(),
                     format!(
-                        "after the whole stream was fed, a complete frame ({} at offset {}, body_len {}) remains undecoded in the buffer and the connection is neither answered nor closed",
+                        "after the whole stream was fed, a complete frame ({} at offset {}, body_len {}) remains undecoded and the connection is neither answered nor closed",
                         wire::opname(h.opcode),
-                        run.leftover_offset,
+                        off,
                         h.body_len
                     ),
                 ));
@@ -237,6 +240,14 @@ pub fn check(ctx: &mut Ctx) -> i32 {
         write_evidence(ctx, &acc, RULE, ASSUME, 1);
         print_summary(ctx, &acc);
         return EXIT_VIOLATION;
+    }
+    if !ctx.quick() {
+        if let Some(code) = crate::props::fuzzrun::campaign(ctx, &acc, "c09_split", 400_000, 12) {
+            if code != EXIT_OK {
+                write_evidence(ctx, &acc, RULE, ASSUME, 1);
+                return code;
+            }
+        }
     }
     if let Some(code) = crate::props::c09_l3_hook(ctx, &acc) {
         if code != EXIT_OK {
